@@ -207,6 +207,14 @@ class Gen:
                  'int32': (-2 ** 31, 2 ** 31 - 1), 'uint32': (0, 2 ** 32 - 1), 'int64': (-2 ** 63, 2 ** 63 - 1),
                  'uint64': (0, 2 ** 64 - 1), 'char': (0, 127)}
 
+    def num_text(self, v):
+        """decimal text of v; one in four with superfluous leading zeros (xs:integer allows them, sbeppc's
+        from_chars accepts them; pasted verbatim they would be octal literals)"""
+        if self.maybe(0.25):
+            self.hit('number.leading_zeros')
+            return ('-' if v < 0 else '') + '0' * self.r.choice([1, 2, 5]) + str(abs(v))
+        return str(v)
+
     def explicit_range(self, t):
         """explicit minValue/maxValue/nullValue on an integer type"""
         p = t['prim']
@@ -214,13 +222,14 @@ class Gen:
             return
         lo, hi = self.INT_RANGE[p]
         if self.maybe(0.3):
-            t['min'] = str(self.r.choice([lo, lo + 1, 0 if lo <= 0 else lo, 1 if lo <= 1 else lo]))
+            t['min'] = self.num_text(self.r.choice([lo, lo + 1, 0 if lo <= 0 else lo, 1 if lo <= 1 else lo,
+                                                     -8 if lo <= -8 else lo, -64 if lo <= -64 else lo]))
             self.hit('type.explicit_min')
         if self.maybe(0.3):
-            t['max'] = str(self.r.choice([hi, hi - 1, 100 if hi >= 100 else hi]))
+            t['max'] = self.num_text(self.r.choice([hi, hi - 1, 100 if hi >= 100 else hi, 10 if hi >= 10 else hi]))
             self.hit('type.explicit_max')
         if t.get('presence') == 'optional' and self.maybe(0.5):
-            t['null'] = str(self.r.choice([lo, hi, 0 if lo <= 0 else lo]))
+            t['null'] = self.num_text(self.r.choice([lo, hi, 0 if lo <= 0 else lo, -10 if lo <= -10 else lo]))
             self.hit('type.explicit_null')
 
     # -- types
